@@ -25,6 +25,7 @@ import (
 	"os/exec"
 	"path/filepath"
 	"runtime"
+	"runtime/debug"
 	"strings"
 	"sync"
 	"syscall"
@@ -57,6 +58,7 @@ type c12Case struct {
 	Unix     bool           `json:"unix"`
 	Script   []c12Frame     `json:"script"`
 	Close    bool           `json:"close"`
+	Late     bool           `json:"late"`
 	FileQ    bool           `json:"file_q"` // the queue / buffer path exists for the real server
 	FileB    bool           `json:"file_b"`
 	Frames   []c12Frame     `json:"frames"` // what the real end wrote
@@ -206,8 +208,9 @@ func c12ReadFrame(c *net.UnixConn, d time.Duration) (fr *c12Frame, closed bool) 
 }
 
 type c12Send struct {
-	data []byte
-	fds  []int // with data == nil: send these descriptors (sendmsg with the dummy byte)
+	data  []byte
+	fds   []int         // with data == nil: send these descriptors (sendmsg with the dummy byte)
+	delay time.Duration // wait this long before sending (a peer that answers late)
 }
 
 // the scripted peer: [first] = it speaks first (a fake client); otherwise it answers (a fake server).
@@ -226,6 +229,9 @@ func c12FakePeer(c *net.UnixConn, speaksFirst bool, script []c12Send, closeAfter
 	for _, s := range script {
 		if !speaksFirst && alive {
 			alive = rd(400 * time.Millisecond)
+		}
+		if s.delay > 0 {
+			time.Sleep(s.delay)
 		}
 		if s.data != nil {
 			c.Write(s.data)
@@ -456,6 +462,7 @@ type c12PeerSpec struct {
 	createMemfd bool
 	removeB     bool // remove the buffer file again before the server runs (it must fail to map)
 	wantVer     int  // > 0: the property demands success with this (lower common) version
+	late        bool // the script is sent only after the real end's InitializeTimeout has passed
 }
 
 func c12PeerSpecs() []c12PeerSpec {
@@ -517,6 +524,10 @@ func c12PeerSpecs() []c12PeerSpec {
 		{name: "s-v3-file-complete", wantVer: 3, createFile: true, script: func(q, b string, bf, qf int) []c12Send {
 			return []c12Send{exch(3), {data: c12Meta(3, typeShareMemoryByFilePath, q, b)}}
 		}},
+		// regression for C12_no_residue (late peer): valid V2 metadata that arrives after the server's timeout
+		{name: "s-late-metadata-after-timeout", createFile: true, late: true, script: func(q, b string, bf, qf int) []c12Send {
+			return []c12Send{{data: c12Meta(2, typeShareMemoryByFilePath, q, b), delay: c12InitTimeout + 400*time.Millisecond}}
+		}},
 		{name: "s-version-4", script: S(exch(4))},
 		{name: "s-v2-with-exchange-type", script: S(exch(2))},
 		{name: "s-v3-with-file-type-first", script: S(h(3, typeShareMemoryByFilePath))},
@@ -542,7 +553,7 @@ const c12InitTimeout = 700 * time.Millisecond
 const c12Slack = 4 * time.Second
 
 func c12RunPeer(id int, sp c12PeerSpec) c12Case {
-	c := c12Case{ID: id, Kind: "peer", Name: sp.name, Client: sp.client, MT: int(sp.mt), Unix: true, Close: sp.close,
+	c := c12Case{ID: id, Kind: "peer", Name: sp.name, Client: sp.client, MT: int(sp.mt), Unix: true, Close: sp.close, Late: sp.late,
 		Timeout: int64(c12InitTimeout / time.Millisecond), Frames: []c12Frame{}, Script: []c12Frame{}}
 	fail := func(msg string) c12Case {
 		c.Err = "harness: " + msg
@@ -675,6 +686,9 @@ func c12RunPeer(id int, sp c12PeerSpec) c12Case {
 		c.Residue = c12Residue(id, inode)
 		for _, r := range c.Residue {
 			if sig := c12ResidueSig(r, !sp.client); sig != "" {
+				if sp.late && (sig == "C12:error-path-leaves-mapping" || sig == "C12:error-path-leaves-file") {
+					sig = "C12:late-peer-after-timeout-leaks-mapping"
+				}
 				c.Oracle = append(c.Oracle, sig)
 			}
 		}
@@ -1109,8 +1123,13 @@ func TestVerif_C12(t *testing.T) {
 	for round := 0; round < rounds; round++ {
 		var wg sync.WaitGroup
 		sem := make(chan struct{}, 12)
+		var alone []c12PeerSpec
 		for _, sp := range c12PeerSpecs() {
 			sp := sp
+			if sp.late {
+				alone = append(alone, sp)
+				continue
+			}
 			myid := id
 			id++
 			wg.Add(1)
@@ -1153,6 +1172,14 @@ func TestVerif_C12(t *testing.T) {
 		wg.Wait()
 		// alone, in a quiet process
 		time.Sleep(300 * time.Millisecond)
+		for _, sp := range alone {
+			// no GC while the peer is late: on the unrepaired code a finalizer would close the dup'ed
+			// descriptor under the blocked goroutine and make the outcome depend on GC timing
+			old := debug.SetGCPercent(-1)
+			emit(c12RunPeer(id, sp))
+			debug.SetGCPercent(old)
+			id++
+		}
 		emit(c12RunCensus(id, true))
 		id++
 		emit(c12RunCensus(id, false))
